@@ -55,7 +55,58 @@ def wl_core(tier, seed):
             ("l1fast", l1_batch(seed + 1, 4, 20000, base=200, reopen_every=5000), dict(per_tlc=1, tlc_jobs=4, max_slots=300, profile="fast"))]
 
 
+def mc_reloc(tier):
+    wit = [dict(module="MCStore_w16k.tla", cfg="MCStore_w16k_%s.cfg" % c, workers=4, witness=w, timeout=600)
+           for c, w in (("wit1", "NoOtherMove1"), ("wit2", "NoOtherMove2"), ("witk", "NoKeyMove"), ("witv", "NoValMove"))]
+    q = [dict(module="MCStore_q.tla", cfg="MCStore_q.cfg", workers=8),
+         dict(module="MCStore_w16k.tla", cfg="MCStore_w16k_q.cfg", workers=8)] + wit
+    if tier == "thorough":
+        q += [dict(module="MCStore_t.tla", cfg="MCStore_t.cfg", workers=12, xmx="24g", timeout=7200),
+              dict(module="MCStore_w16k.tla", cfg="MCStore_w16k_t.cfg", workers=12, xmx="24g", timeout=7200)]
+    return q
+
+
+def wl_reloc(tier, seed):
+    if tier == "quick":
+        return [("reloc", reloc_batch(seed, 8, 150, base=40), dict(per_tlc=1, tlc_jobs=8)),
+                ("l2", l2_batch(seed + 3, 4, nops=80, base=60), dict(per_tlc=1, tlc_jobs=4))]
+    return [("reloc", reloc_batch(seed, 40, 400, base=300), dict(per_tlc=2, tlc_jobs=8)),
+            ("reloc2m", reloc_batch(seed + 7, 8, 300, base=400, width=2097152), dict(per_tlc=1, tlc_jobs=8)),
+            ("l2", l2_batch(seed + 3, 30, nops=200, base=500), dict(per_tlc=3, tlc_jobs=8))]
+
+
+def mc_scan(tier):
+    q = [dict(module="MCScan.tla", cfg="MCScan_%s.cfg" % c, workers=8) for c in ("all1", "all2", "all4", "all8", "all16", "n32", "n128q", "n256")]
+    q.append(dict(module="MCScan.tla", cfg="MCScan_pinned128.cfg", workers=2, witness="ScanOK"))
+    q.append(dict(module="MCStore_q.tla", cfg="MCStore_q.cfg", workers=8))
+    if tier == "thorough":
+        q += [dict(module="MCScan.tla", cfg="MCScan_%s.cfg" % c, workers=12, xmx="16g", timeout=7200) for c in ("n64", "n128", "n256t", "n1024")]
+    return q
+
+
+def iter_batch(seed, sizes, base=0, rounds=4):
+    out = []
+    for i, nb in enumerate(sizes):
+        out.append(gen.gen_iter(seed * 1000 + 300 + i, idbase=(base + i) * IDSTEP, nb=nb, rounds=rounds, name="iter_%s%d" % (nb[0][0], nb[1])))
+    return out
+
+
+ITER_SIZES_Q = [("BucketsSize", 1), ("BucketsSize", 2), ("BucketsSize", 4), ("BucketsSize", 8), ("BucketsSize", 16), ("BucketsSize", 64),
+                ("BucketsSize", 128), ("BucketsSize", 256), ("BucketsSize", 1024), ("Capacity", 12), ("Capacity", 100), ("BucketsSize", 65536)]
+
+
+def wl_iter(tier, seed):
+    if tier == "quick":
+        return [("iter", iter_batch(seed, ITER_SIZES_Q), dict(per_tlc=2, tlc_jobs=6)),
+                ("l2", l2_batch(seed + 5, 4, nops=60, base=60, iter_every=2), dict(per_tlc=1, tlc_jobs=4))]
+    sizes = ITER_SIZES_Q * 4 + [("BucketsSize", 32), ("BucketsSize", 512), ("BucketsSize", 2048), ("BucketsSize", 4096), ("BucketsSize", 32768), ("Capacity", 57), ("Capacity", 7), ("Capacity", 1)] * 2
+    return [("iter", iter_batch(seed, sizes, rounds=8), dict(per_tlc=4, tlc_jobs=8)),
+            ("l2", l2_batch(seed + 5, 20, nops=150, base=200, iter_every=2), dict(per_tlc=2, tlc_jobs=8))]
+
+
 PLANS = {
+    "C04": dict(attr=["C04.", "C01.outcome"], mc=mc_scan, workloads=wl_iter, assumptions=COMMON_ASSUME),
+    "C08": dict(attr=["C08.", "C01.result", "C01.outcome", "C05.content", "C05.count"], mc=mc_reloc, workloads=wl_reloc, assumptions=COMMON_ASSUME),
     "C01": dict(attr=["C01."], mc=lambda t: mc_store(t), workloads=wl_core, assumptions=COMMON_ASSUME),
     "C05": dict(attr=["C05."], mc=lambda t: mc_store(t), workloads=wl_core, assumptions=COMMON_ASSUME),
     "C06": dict(attr=["C06."], mc=lambda t: mc_store(t), workloads=wl_core, assumptions=COMMON_ASSUME),
